@@ -43,6 +43,9 @@ func (e *Emitter) Case(id string, line string, meta map[string]any) {
 	if ev := takeDiscards(); len(ev) > 0 {
 		meta["split_discards"] = ev
 	}
+	if ev := takeMicro(); len(ev) > 0 {
+		meta["micro_splices"] = ev
+	}
 	b, _ := json.Marshal(meta)
 	e.meta.Write(b)
 	e.meta.WriteByte('\n')
@@ -57,7 +60,25 @@ func (e *Emitter) Fail(m map[string]any) {
 	if ev := takeDiscards(); len(ev) > 0 {
 		m["split_discards"] = ev
 	}
+	if ev := takeMicro(); len(ev) > 0 {
+		m["micro_splices"] = ev
+	}
 	e.Direct = append(e.Direct, m)
+}
+
+// vertices fixSelfIntersects spliced into a ring by its "adjacent intersections" repair: the triangle (prev, spliced, at)
+func takeMicro() [][][2]int64 {
+	var out [][][2]int64
+	for _, d := range clip.VerifTakeMicroSplices() {
+		out = append(out, [][2]int64{{d.Prev.X, d.Prev.Y}, {d.Spliced.X, d.Spliced.Y}, {d.At.X, d.At.Y}})
+	}
+	return out
+}
+
+// clearEvents drops everything recorded so far (start of a case)
+func clearEvents() {
+	clip.VerifTakeSplitDiscards()
+	clip.VerifTakeMicroSplices()
 }
 
 func takeDiscards() []map[string]any {
